@@ -26,7 +26,12 @@ module objects with a past (oracle_lifecycle): channels that are shallow copies 
 sharing one W list / one counters list), deep copies, modules trained before being wrapped, the modules of another fitted host,
 a shallow copy of a fitted host: after fit (+ partial_fit, re-fit) equal counts = labels used, W = concatenation, counters =
 label histogram, every channel = the bare module's rule on its slice, and everything identical to a FusionART over fresh,
-identically configured modules."""
+identically configured modules;
+a reset function that trains the estimator it is called from (oracle_reentrant_*: `model.partial_fit(rows)` inside the callback,
+then veto or accept — categories move / are added in the middle of one sample's vigilance search): a one-channel gamma=[1]
+FusionART against the bare module given the same scripted teacher (labels_, weights, counters, predictions; every elementary
+class, every match-tracking mode), and for 1-4 channels the completed steps (lesson rows first, then the interrupted row)
+replayed on bare modules: equal counts, W = concatenation, counters = winner histogram, every channel = its module's rule."""
 from __future__ import annotations
 
 import operator
@@ -1600,6 +1605,303 @@ def oracle_lifecycle(ctx, N, nmax):
             cov.sample({"lifecycle": life, "classes": cls, "gamma": gam, "calls": style, "labels": labels})
 
 
+# ------------------------------------------------------------------ oracle: a reset function that trains the model it is called from
+#
+# Every reset function above is a table look-up.  The statement quantifies over "with and without a reset function" and the
+# reset function is a caller's callable: nothing keeps it from being an *online teacher* that, when asked about a candidate
+# category, first presents a few rows to the very estimator it was called from (`model.partial_fit(rows)`: categories move,
+# categories are added, in the middle of one sample's vigilance search) and then vetoes or accepts.  The interrupted search
+# goes on over the remaining candidates.  What the statement says there, executed on the implementation:
+#   * one channel, gamma = [1]: the FusionART and the bare module, each handed an identically scripted teacher that trains
+#     *it*, end with the same labels_, the same weights, the same counters, the same predictions (every elementary class; the
+#     teacher may accept as well as veto after a lesson; the lessons may themselves be trained under the teacher's verdicts);
+#   * 1..4 channels: the sequence (row, winner) of the completed `step_fit` calls — a lesson's rows complete before the row
+#     whose search they interrupted — is a history like any other: equal category counts, W = concatenation, module counters =
+#     histogram of the winners, and every channel's weights = the bare module's own rule (new_weight / update) replayed on its
+#     slice with those winners (`bare_replay`).  Here the teacher vetoes whenever it has taught, so that the weight a row is
+#     finally learnt into was fetched after the last lesson, and the channels are the classes whose update rule does not
+#     read the activation cache (the cache of a candidate is computed before the search starts).
+# Nothing is demanded about *which* category wins; a call that raises is the library rejecting the situation (counted).
+
+REENTRANT_INNER = ["plain", "plain", "same-mode", "under-the-teacher"]
+
+
+class Teacher:
+    """scripted match-reset function that re-enters the estimator it is called from.  Its decisions are drawn from a
+    private generator in call order (three draws per call, whatever the decision), so two estimators that behave
+    identically meet identical teachers; `script` records what it did"""
+
+    def __init__(self, model, pool, rnd, p_teach, p_veto, veto_after_lesson, max_lessons, inner, mode, eps):
+        self.model, self.pool, self.r = model, pool, rnd
+        self.p_teach, self.p_veto, self.veto_after, self.max_lessons = p_teach, p_veto, veto_after_lesson, max_lessons
+        self.inner, self.mode, self.eps = inner, mode, eps
+        self.depth = 0
+        self.lessons = 0
+        self.added = self.moved = 0
+        self.script = []        # (call, category asked about, rows taught (pool indices) or None, verdict)
+
+    def __call__(self, x, w, c_, params=None, cache=None):
+        u_teach, u_rows, u_veto = self.r.random(), self.r.random(), self.r.random()
+        call = len(self.script)
+        if self.depth == 0 and self.lessons < self.max_lessons and u_teach < self.p_teach:
+            m = 1 + int(u_rows * 3) % 3
+            idx = [(int(u_rows * 1e6) + t) % len(self.pool) for t in range(m)]
+            self.script.append((call, int(c_), idx, None))
+            self.lessons += 1
+            self.depth += 1
+            try:
+                before = [np.array(v, dtype=float) for v in self.model.W]
+                if self.inner == "plain":
+                    self.model.partial_fit(self.pool[idx])
+                elif self.inner == "same-mode":
+                    self.model.partial_fit(self.pool[idx], match_tracking=self.mode, epsilon=self.eps)
+                else:
+                    self.model.partial_fit(self.pool[idx], match_reset_func=self, match_tracking=self.mode, epsilon=self.eps)
+                after = [np.array(v, dtype=float) for v in self.model.W]
+                self.added += len(after) - len(before)
+                self.moved += sum(1 for a, b in zip(before, after) if not np.array_equal(a, b, equal_nan=True))
+            finally:
+                self.depth -= 1
+            verdict = False if self.veto_after else u_veto >= 0.6
+            self.script[call] = (call, int(c_), idx, verdict)
+            return verdict
+        verdict = u_veto >= self.p_veto
+        self.script.append((call, int(c_), None, verdict))
+        return verdict
+
+
+def reentrant_program(r, n):
+    style = r.choice(["fit", "pfit", "pfit", "fit+pfit"])
+    if style == "fit" or n < 2:
+        return [("fit", 0, n)]
+    if style == "pfit":
+        parts = gen.compositions(r, n)
+        n1 = 0
+        prog = []
+    else:
+        n1 = r.randint(1, n - 1)
+        parts = gen.compositions(r, n - n1)
+        prog = [("fit", 0, n1)]
+    a = n1
+    for p in parts:
+        prog.append(("pfit", a, a + p))
+        a += p
+    return prog
+
+
+def run_reentrant(m, X, prog, teacher, mode, eps, events=None):
+    """the calls of `prog` on `m` with the teacher as reset function; `events` collects (row, winner) of every completed
+    step_fit, in order of completion"""
+    if events is not None:
+        o_step = m.step_fit
+
+        def step(x, *a, _o=o_step, **kw):
+            c = _o(x, *a, **kw)
+            events.append((np.array(x, dtype=float), int(c)))
+            return c
+        object.__setattr__(m, "step_fit", step)
+    kw = dict(match_reset_func=teacher, match_tracking=mode, epsilon=eps)
+    with quiet(), time_limit(20):
+        for op, a, b in prog:
+            if op == "fit":
+                m.fit(X[a:b], **kw)
+            else:
+                m.partial_fit(X[a:b], **kw)
+
+
+def teacher_for(ctx, i, model, pool, cfg, mode, eps):
+    return Teacher(model, pool, gen.rng_for(ctx.seed, "C10-reent-teacher", i), cfg["p_teach"], cfg["p_veto"],
+                   cfg["veto_after_lesson"], cfg["max_lessons"], cfg["inner"], mode, eps)
+
+
+def reentrant_cfg(r, veto_after_lesson):
+    return {"p_teach": r.choice([0.25, 0.4, 0.6]), "p_veto": r.choice([0.0, 0.3, 0.5, 0.8]),
+            "veto_after_lesson": veto_after_lesson, "max_lessons": r.randint(1, 5), "inner": r.choice(REENTRANT_INNER)}
+
+
+def reentrant_how(cfg):
+    return ("reset function = artv.checks.C10.Teacher(model = the estimator under training, pool, "
+            "random.Random(teacher_rng), **teacher): three draws per call; at depth 0, while fewer than "
+            "max_lessons lessons were given and the first draw < p_teach, it calls model.partial_fit(pool[rows]) "
+            f"(inner = {cfg['inner']}) and then " + ("vetoes" if cfg["veto_after_lesson"] else "vetoes unless the third draw >= 0.6") +
+            "; otherwise it vetoes when the third draw < p_veto.  `teacher_script` = (call, category asked about, pool rows "
+            "taught or None, verdict) as recorded on the reference run")
+
+
+def oracle_reentrant_single(ctx, N, nmax):
+    cov = ctx.cov
+    for i in range(N):
+        r = gen.rng_for(ctx.seed, "C10-reent1", i)
+        c = specs.ELEM[(i // 2) % len(specs.ELEM)] if i % 2 else "FuzzyART"
+        d = r.randint(1, 3)
+        sp = specs.elem_spec(r, c, specs.width(c, d) if c != "FuzzyART" else d)
+        n = r.randint(3, nmax)
+        floats = r.random() < 0.3 and c != "ART1"
+        X = specs.elem_data(r, c, n, d, floats=floats)
+        pool = np.vstack([specs.elem_data(r, c, r.randint(2, 6), d, floats=floats), X[r.sample(range(n), 2)]])
+        mode = r.choice(MODES)
+        eps = r.choice([0.0, 2.0 ** -20, 2.0 ** -10, 0.125])
+        cfg = reentrant_cfg(r, veto_after_lesson=r.random() < 0.5)
+        prog = reentrant_program(r, n)
+        spec = fusion_spec([sp], [X.shape[1]], [1.0])
+        rep = {"spec": spec, "bare": sp, "class": c, "mode": mode, "eps": eps, "X": X, "pool": pool, "program": prog,
+               "teacher": cfg, "teacher_rng": f"{ctx.seed}/C10-reent-teacher/{i}", "how": reentrant_how(cfg)}
+        key = (c, sp, X.tolist(), pool.tolist(), mode, eps, sorted(cfg.items()), prog)
+        b = make(deepcopy(sp))
+        tb = teacher_for(ctx, i, b, pool, cfg, mode, eps)
+        try:
+            run_reentrant(b, X, prog, tb, mode, eps)
+            berr = None
+        except Exception as e:
+            berr = e
+        rep["teacher_script"] = list(tb.script)
+        f = make(spec)
+        tf = teacher_for(ctx, i, f, pool, cfg, mode, eps)
+        try:
+            run_reentrant(f, X, prog, tf, mode, eps)
+            ferr = None
+        except Exception as e:
+            ferr = e
+        if berr is not None or ferr is not None:
+            cov.case(key, False)
+            if berr is not None and ferr is not None:
+                cov.hit(f"reentrant:single:both-raise:{exc_enum(berr)}")
+            elif berr is not None:
+                cov.hit(f"reentrant:single:only-the-bare-module-raises:{c}:{exc_enum(berr)}")
+            else:
+                ctx.issue("violation", f"FusionART([{c}]).fit:reset-function-trains-the-model:{exc_enum(ferr)}",
+                          f"one-channel FusionART raised {ferr!r} where the bare {c}, given the same teaching reset function, trains", rep)
+            continue
+        cov.case(key, len(b.W) >= 2 and tb.lessons >= 1)
+        cov.hit(f"reentrant:single:{c}")
+        cov.hit(f"reentrant:single:mode={mode}")
+        cov.hit(f"reentrant:single:lessons-{cfg['inner']}" if tb.lessons else "reentrant:single:no-lesson-given")
+        if tb.added:
+            cov.hit("reentrant:single:lesson-added-a-category-mid-search")
+        if tb.moved:
+            cov.hit("reentrant:single:lesson-moved-a-category-mid-search")
+        if any(idx is not None and v for _, _, idx, v in tb.script):
+            cov.hit("reentrant:single:accepted-after-a-lesson")
+        lf, lb = [int(t) for t in f.labels_], [int(t) for t in b.labels_]
+        cf, cb = [int(t) for t in f.modules[0].weight_sample_counter_], [int(t) for t in b.weight_sample_counter_]
+        sameW = same_W(f.modules[0].W, b.W) and same_W(f.W, b.W)
+        if lf != lb or not sameW or cf != cb:
+            what = "labels" if lf != lb else ("weights" if not sameW else "counters")
+            if mode == "MT~":
+                # MT~ consults the reset function INSIDE the activation pass (`for c_, w in enumerate(self.W)`): a lesson given
+                # there changes the very list a bare module is iterating (what the loop then visits is an accident of Python's
+                # list iterator), while FusionART iterates the fused list its W property assembled once.  Which of the two is
+                # "the module's rule" is not defined by the property: counted, not reported (DESIGN 12.5, batch 14).
+                cov.hit("reentrant:single:MT~-lesson-inside-the-activation-pass:fused-and-bare-differ(not judged)")
+                continue
+            # MT~ consults the reset function inside the activation pass (`for c_, w in enumerate(self.W)`), every other mode
+            # inside the vigilance search: two places of the search, two signatures
+            sig = ("FusionART:reset-function-trains-the-model:MT~(reset-consulted-inside-the-activation-pass):one-channel!=bare-module"
+                   if mode == "MT~" else f"FusionART([{c}]):reset-function-trains-the-model:one-channel!=bare-module")
+            ctx.issue("violation", sig,
+                      f"a reset function that trains the estimator it is called from ({tb.lessons} lessons, {tb.added} categories added, "
+                      f"{tb.moved} moved mid-search; the fused run was given {tf.lessons}): {what} differ; labels_ {lf} vs bare {lb}; "
+                      f"categories {len(f.modules[0].W)} vs bare {len(b.W)}; weights equal: {sameW}; counters {cf} vs bare {cb}",
+                      dict(rep, fused_teacher_script=list(tf.script)))
+            continue
+        try:
+            with quiet():
+                pf, pb = [int(t) for t in f.predict(X)], [int(t) for t in b.predict(X)]
+        except Exception as e:
+            cov.hit(f"reentrant:single:predict-raises:{exc_enum(e)}")
+            continue
+        if pf != pb:
+            ctx.issue("violation", f"FusionART([{c}]).predict:reset-function-trains-the-model:one-channel!=bare-module",
+                      f"predictions {pf} vs bare {pb}", rep)
+            continue
+        cov.hit("reentrant:single-equals-bare")
+        if i < 2:
+            cov.sample({"reentrant-single": c, "mode": mode, "lessons": tb.lessons, "added": tb.added, "moved": tb.moved, "labels": lb})
+
+
+def oracle_reentrant_multi(ctx, N, nmax):
+    cov = ctx.cov
+    for i in range(N):
+        r = gen.rng_for(ctx.seed, "C10-reentk", i)
+        cls, ds, sp, dims, gam = gen_channels(r, 1, 4)
+        k = len(cls)
+        floats = r.random() < 0.3
+        n = r.randint(3, nmax)
+        X = np.hstack(channel_data(r, cls, ds, n, floats=floats))
+        pool = np.vstack([np.hstack(channel_data(r, cls, ds, r.randint(2, 6), floats=floats)), X[r.sample(range(n), 2)]])
+        mode = r.choice(MODES)
+        eps = r.choice([0.0, 2.0 ** -20, 2.0 ** -10, 0.125])
+        cfg = reentrant_cfg(r, veto_after_lesson=True)
+        prog = reentrant_program(r, n)
+        spec = fusion_spec(sp, dims, gam)
+        off = np.cumsum([0] + dims)
+        rep = {"spec": spec, "classes": cls, "mode": mode, "eps": eps, "X": X, "pool": pool, "program": prog,
+               "teacher": cfg, "teacher_rng": f"{ctx.seed}/C10-reent-teacher/{i}", "how": reentrant_how(cfg)}
+        key = (cls, sp, dims, gam, X.tolist(), pool.tolist(), mode, eps, sorted(cfg.items()), prog)
+        events = []
+        f = make(spec)
+        t = teacher_for(ctx, i, f, pool, cfg, mode, eps)
+        try:
+            run_reentrant(f, X, prog, t, mode, eps, events)
+        except Exception as e:
+            cov.case(key, False)
+            cov.hit(f"reentrant:multi:raises:{exc_enum(e)}")
+            continue
+        rep["teacher_script"] = list(t.script)
+        # (a program has at most one fit, its first call: the completed steps are the whole history)
+        rows =np.array([x_ for x_, _ in events], dtype=float).reshape(len(events), X.shape[1])
+        winners = [c_ for _, c_ in events]
+        rep["completed_steps"] = {"rows": rows, "winners": winners}
+        counts = [len(m.W) for m in f.modules]
+        ncat = max(winners) + 1
+        cov.case(key, ncat >= 2 and k >= 2 and t.lessons >= 1)
+        cov.hit(f"reentrant:multi:channels={k}")
+        cov.hit(f"reentrant:multi:mode={mode}")
+        cov.hit(f"reentrant:multi:lessons-{cfg['inner']}" if t.lessons else "reentrant:multi:no-lesson-given")
+        if t.added:
+            cov.hit("reentrant:multi:lesson-added-a-category-mid-search")
+        if t.moved:
+            cov.hit("reentrant:multi:lesson-moved-a-category-mid-search")
+        if len(set(counts)) != 1 or counts[0] != ncat or f.n_clusters != ncat or len(f.W) != ncat:
+            ctx.issue("violation", "FusionART:reset-function-trains-the-model:category-counts-differ",
+                      f"the completed steps name {ncat} categories (winners {winners}); the channel modules hold {counts}, n_clusters "
+                      f"{f.n_clusters}, |W| {len(f.W)} ({t.lessons} lessons, {t.added} categories added mid-search)", rep)
+            continue
+        Wf = f.W
+        if any(not np.array_equal(np.asarray(Wf[c_], dtype=float),
+                                  np.concatenate([np.asarray(m.W[c_], dtype=float) for m in f.modules]), equal_nan=True)
+               for c_ in range(ncat)):
+            ctx.issue("violation", "FusionART.W:reset-function-trains-the-model:not-concatenation",
+                      "W[c] differs from the concatenated module weights", rep)
+            continue
+        cnts = [[int(v) for v in m.weight_sample_counter_] for m in f.modules]
+        hist = np.bincount(winners, minlength=ncat).tolist()
+        if any(c_ != hist for c_ in cnts):
+            ctx.issue("violation", "FusionART:reset-function-trains-the-model:module-counters!=winner-histogram",
+                      f"counters {cnts}, histogram of the winners of the completed steps {hist}", rep)
+            continue
+        bad_ch = None
+        for j in range(k):
+            try:
+                b = bare_replay(sp[j], rows[:, off[j]:off[j + 1]], winners, mode)
+            except Exception as e:
+                bad_ch = (j, f"bare replay raised {e!r}")
+                break
+            if not same_W(f.modules[j].W, b.W):
+                bad_ch = (j, f"modules[{j}].W differs from a bare {cls[j]} fed the same slice and the winners of the completed steps "
+                             f"{winners} ({t.lessons} lessons, {t.added} categories added, {t.moved} moved mid-search)")
+                break
+            cov.hit("reentrant:multi:channel-equals-bare-module")
+        if bad_ch:
+            ctx.issue("violation", f"FusionART({cls[bad_ch[0]]}):reset-function-trains-the-model:channel-weight!=module-rule",
+                      bad_ch[1], dict(rep, channel=bad_ch[0]))
+            continue
+        cov.hit("reentrant:multi-ok")
+        if i < 2:
+            cov.sample({"reentrant-multi": cls, "gamma": gam, "mode": mode, "lessons": t.lessons, "added": t.added,
+                        "moved": t.moved, "winners": winners})
+
+
 GEN_THEOREMS = ['fusion_positions', 'fusion_category_choice', 'fusion_match_criterion_bin', 'fusion_match_criterion_bin_none', 'fusion_match_bin_model', 'fusion_update', 'fusion_update_none', 'fusion_new_weight', 'fusion_add_weight', 'fusion_set_weight', 'fusion_add_weight_model', 'fusion_set_weight_model', 'fusion_match_tracking', 'fusion_W_get', 'fusion_W_get_model']
 
 
@@ -1629,3 +1931,5 @@ def run(ctx):
     oracle_regamma(ctx, ctx.scale(240, 2000), ctx.scale(12, 40))
     oracle_ulp(ctx, ctx.scale(200, 2500), ctx.scale(12, 24))
     oracle_lifecycle(ctx, ctx.scale(320, 3000), ctx.scale(12, 30))
+    oracle_reentrant_single(ctx, ctx.scale(240, 2400), ctx.scale(10, 24))
+    oracle_reentrant_multi(ctx, ctx.scale(240, 2400), ctx.scale(10, 24))
